@@ -303,6 +303,7 @@ func finVerify(st *State, fs *finState, f []string) Result {
 	cts := finCertTs(f[4], ts)
 	var oracle []string
 	sound, soundPrimary := false, false
+	validBelow := "" // a vector the signature verifies against although the mask is below that vector's threshold
 	sameKeys := false // some evaluated key vector selects exactly the set of keys that signed
 	hasSig := 0
 	var sigN string = "0"
@@ -364,6 +365,12 @@ func finVerify(st *State, fs *finState, f []string) Result {
 			}
 			thr := ms.node.ConsensusThreshold(vts, true)
 			legacyAllowed := vi == 0 || (ms.mainnet && cts < memForkAt)
+			if d := bits.OnesCount64(mask) - thr; d >= -1 && d <= 1 && valid {
+				res.Tags = append(res.Tags, fmt.Sprintf("fin:valid-sig:vector%d:bits-thr=%+d", vi, d))
+			}
+			if valid && bits.OnesCount64(mask) < thr {
+				validBelow = fmt.Sprintf("the signature verifies against the %d-key vector of timestamp %d whose threshold is %d, the mask has %d bits", len(publics), vts, thr, bits.OnesCount64(mask))
+			}
 			if valid && bits.OnesCount64(mask) >= thr && legacyAllowed {
 				sound = true
 				if vi == 0 {
@@ -385,6 +392,9 @@ func finVerify(st *State, fs *finState, f []string) Result {
 	case out != fresh:
 		res.PropKey = "C09:cached-differs-from-fresh"
 		res.PropDesc = fmt.Sprintf("verifyFinalization with the case's cache: %.120q, with an empty cache: %.120q", out, fresh)
+	case accepted && !sound && validBelow != "":
+		res.PropKey = "C09:accepted-below-threshold-of-verified-vector"
+		res.PropDesc = fmt.Sprintf("accepted as final: %s (mask %x ts %d round %d)", validBelow, mask, ts, round)
 	case accepted && !sound:
 		res.PropKey = "C09:final-without-threshold-certificate"
 		res.PropDesc = fmt.Sprintf("accepted as final but no key vector at the certificate timestamp has popcount(mask) >= threshold, all bits in range and a valid aggregate signature (mask %x ts %d round %d)", mask, ts, round)
@@ -408,7 +418,60 @@ func finVerify(st *State, fs *finState, f []string) Result {
 
 // ---------------------------------------------------------------- generator
 
+// finGenThresholdCase: the removal scenario of memGenLegacyScenario; real certificates of exactly
+// t-1, t, t+1 signers for the threshold t of each key vector verifyFinalization may use (the vector at
+// the snapshot timestamp, and in legacy mode the longer vector of the hour before the window).
+func finGenThresholdCase(r *Rand) []string {
+	legacy := r.Chance(2, 3)
+	sc := memGenLegacyScenario(r, legacy)
+	h := sc.h
+	lines := []string{"reset", h.initLine(Pick(r, h.genesis)), h.loadLine(r, h.recs), "chain state"}
+	type vec struct {
+		signTs uint64
+		n      int
+	}
+	vecs := []vec{{sc.snapTs, sc.g - 1}}
+	if legacy {
+		vecs = append(vecs, vec{sc.lts, sc.g})
+	}
+	label := 0
+	round := uint64(r.Range(1, 2))
+	for _, v := range vecs {
+		t := v.n*2/3 + 1
+		for _, k := range []int{t - 1, t, t + 1} {
+			if k < 1 || k > v.n {
+				continue
+			}
+			// a random k-subset of the n positions
+			pos := make([]int, v.n)
+			for i := range pos {
+				pos[i] = i
+			}
+			for i := len(pos) - 1; i > 0; i-- {
+				j := r.Intn(i + 1)
+				pos[i], pos[j] = pos[j], pos[i]
+			}
+			var mask uint64
+			for _, b := range pos[:k] {
+				mask |= 1 << uint(b)
+			}
+			label++
+			lb := fmt.Sprintf("t%d", label)
+			hs := fmt.Sprintf("h%d", r.Intn(1000))
+			fin := fmt.Sprintf("fin 2 %s %x %s %d %d 0", lb, mask, hs, sc.snapTs, round)
+			lines = append(lines, fmt.Sprintf("sign %s %d %d %x %s", lb, round, v.signTs, mask, hs), fin)
+			if r.Chance(1, 3) {
+				lines = append(lines, fin)
+			}
+		}
+	}
+	return lines
+}
+
 func finGen(r *Rand, i int, tier string) []string {
+	if i%5 == 4 {
+		return finGenThresholdCase(r)
+	}
 	h := memGenHistory(r, tier)
 	if len(h.genesis) > 24 && tier != "thorough" {
 		h.genesis = h.genesis[:24]
@@ -508,7 +571,7 @@ func finGen(r *Rand, i int, tier string) []string {
 func init() {
 	Register(&Subsystem{
 		Name: "finality",
-		Rule: "case = generated membership history in a real kernel.Node, one or two chains, 2–5 real CoSi certificates (signed by the holders of the masked keys of ConsensusKeys(round, ts) with the repository's crypto) each verified by the real verifyFinalization as signed, repeated (cache hit), after a cache flush, and altered (mask bit flipped, signature bit flipped, other hash, other timestamp/round/version, missing signature); non-trivial = a verification of a snapshot that carries a signature and a non-zero mask",
+		Rule: "case = generated membership history in a real kernel.Node, one or two chains, 2–5 real CoSi certificates (signed by the holders of the masked keys of ConsensusKeys(round, ts) with the repository's crypto) each verified by the real verifyFinalization as signed, repeated (cache hit), after a cache flush, and altered (mask bit flipped, signature bit flipped, other hash, other timestamp/round/version, missing signature); 1 case in 5: a removal inside the node-operation window (mainnet before the fork, mainnet after, other networks) with certificates of exactly t-1, t, t+1 signers for the threshold of the current and of the legacy key vector; non-trivial = a verification of a snapshot that carries a signature and a non-zero mask",
 		Gen:  finGen,
 		Exec: finExec,
 	})
